@@ -138,4 +138,11 @@ class HyperCubeExperimenter(experimenter.Experimenter):
     self._exptr.evaluate(orig_suggestions)
 
     for suggestion, orig_suggestion in zip(suggestions, orig_suggestions):
-      suggestion.final_measurement = orig_suggestion.final_measurement
+      if orig_suggestion.infeasible:
+        # Keep the infeasibility mark of the wrapped experimenter.
+        suggestion.complete(
+            orig_suggestion.final_measurement or vz.Measurement(),
+            infeasibility_reason=orig_suggestion.infeasibility_reason,
+        )
+      else:
+        suggestion.final_measurement = orig_suggestion.final_measurement
